@@ -331,6 +331,7 @@ PROPS = {
             {"run": "TestC17A", "quick": 9000, "thorough": 300000, "shards_quick": 9, "shards_thorough": 16},
             {"run": "TestC17S", "quick": 4000, "thorough": 200000, "shards_quick": 2, "shards_thorough": 16},
             {"run": "TestC17E", "quick": 1600, "thorough": 60000, "shards_quick": 2, "shards_thorough": 16},
+            {"run": "TestC17F", "quick": 3200, "thorough": 60000, "shards_quick": 4, "shards_thorough": 16},
             {"run": "TestC17O", "quick": 600, "thorough": 20000, "shards_quick": 1, "shards_thorough": 8},
             {"run": "TestC17X", "quick": 60, "thorough": 3000, "shards_quick": 2, "shards_thorough": 16},
         ],
